@@ -15,7 +15,7 @@ use crate::world::*;
 use cosmwasm_std::testing::mock_env;
 use cosmwasm_std::{coin, Addr, BlockInfo, CosmosMsg, Decimal, DistributionMsg, StakingMsg, Uint256, Validator};
 use cw_multi_test::{
-    BankKeeper, BasicAppBuilder, DistributionKeeper, Executor, MockApiBech32, StakeKeeper, StakingInfo, StakingSudo, SudoMsg,
+    BankKeeper, BasicAppBuilder, DistributionKeeper, Executor, StakeKeeper, StakingInfo, StakingSudo, SudoMsg,
 };
 use serde::{Deserialize, Serialize};
 use serde_json::json;
@@ -1088,7 +1088,7 @@ pub fn build(case: &Case) -> Run {
     let world = World::new();
     set_current_world(Some(world.clone()));
     let prefix: &'static str = PREFIXES[case.prefix as usize % PREFIXES.len()];
-    let api = MockApiBech32::new(prefix);
+    let api = crate::contract::SimApi::new(prefix, false);
     let nd = case.n_delegators.clamp(1, 12) as usize;
     let nv = case.n_validators.clamp(1, 9) as usize;
     let mut addrs: Vec<String> = (0..nd).map(|i| api.addr_make(&format!("delegator{}", i)).to_string()).collect();
